@@ -329,18 +329,9 @@ func ruleNoPackageState(w *World, r *Report, rule string) {
 					return true
 				}
 				n++
-				c, isC := unparen(as.Rhs[0]).(*ast.CallExpr)
-				fresh := false
-				if isC {
-					if cal := callee(info, c); cal != nil {
-						if t := w.Decls[cal]; t != nil && returnsFreshLiteral(t) {
-							fresh = true
-						}
-					}
-				}
-				if litOf(as.Rhs[0]) != nil {
-					fresh = true
-				}
+				// a literal, new(T), &local, a constructor function every return of which is one of
+				// these, or a helper that hands one of them back (applyOptions(defaultConfig(), opts))
+				fresh := freshExprIn(fi, as.Rhs[0], 2)
 				if !fresh {
 					bad = "the configuration is " + exprStr(as.Rhs[0]) + ", not a freshly built value: option lists are shared between instances"
 				}
@@ -361,7 +352,61 @@ func returnsFreshLiteral(fi *FuncInfo) bool {
 	return returnsFreshLiteralDepth(fi, 2)
 }
 
+// returnsParam: every return of fi hands back the same parameter; its index, or -1.
+func returnsParam(fi *FuncInfo) int {
+	info := fi.Pkg.TypesInfo
+	idx := -1
+	okAll, any := true, false
+	ast.Inspect(fi.Decl.Body, func(x ast.Node) bool {
+		if _, isLit := x.(*ast.FuncLit); isLit {
+			return false
+		}
+		ret, isRet := x.(*ast.ReturnStmt)
+		if !isRet {
+			return true
+		}
+		any = true
+		if len(ret.Results) != 1 {
+			okAll = false
+			return true
+		}
+		o := objOf(info, ret.Results[0])
+		k, found := 0, -1
+		for _, fl := range fi.Decl.Type.Params.List {
+			for _, nm := range fl.Names {
+				if info.Defs[nm] == o && o != nil {
+					found = k
+				}
+				k++
+			}
+		}
+		if found < 0 || (idx >= 0 && idx != found) {
+			okAll = false
+		}
+		idx = found
+		return true
+	})
+	if !okAll || !any {
+		return -1
+	}
+	return idx
+}
+
+// freshExprIn: e, an expression of function fi, denotes a freshly built value.
+func freshExprIn(fi *FuncInfo, e ast.Expr, depth int) bool {
+	probe := &FuncInfo{Pkg: fi.Pkg, Obj: fi.Obj, Decl: &ast.FuncDecl{Name: fi.Decl.Name, Type: fi.Decl.Type,
+		Body: &ast.BlockStmt{Lbrace: fi.Decl.Body.Lbrace, Rbrace: fi.Decl.Body.Rbrace, List: append(append([]ast.Stmt{}, fi.Decl.Body.List...), &ast.ReturnStmt{Return: e.Pos(), Results: []ast.Expr{e}})}}}
+	// only the appended return is judged: wrap it so that the other returns of fi do not count
+	return returnsFreshLiteralOnly(probe, e, depth)
+}
+
 func returnsFreshLiteralDepth(fi *FuncInfo, depth int) bool {
+	return returnsFreshLiteralOnly(fi, nil, depth)
+}
+
+// returnsFreshLiteralOnly judges every return of fi (only == nil) or just the
+// expression only, resolved in fi's body.
+func returnsFreshLiteralOnly(fi *FuncInfo, only ast.Expr, depth int) bool {
 	info := fi.Pkg.TypesInfo
 	ok, any := true, false
 	freshExpr := func(e ast.Expr) bool {
@@ -385,18 +430,31 @@ func returnsFreshLiteralDepth(fi *FuncInfo, depth int) bool {
 		}
 		if c, isC := e.(*ast.CallExpr); isC && depth > 0 && theWorld != nil {
 			if cal := callee(info, c); cal != nil {
+				if o := cal.Origin(); o != nil {
+					cal = o
+				}
 				if t := theWorld.Decls[cal]; t != nil && t.Pkg == fi.Pkg {
-					return returnsFreshLiteralDepth(t, depth-1)
+					if returnsFreshLiteralDepth(t, depth-1) {
+						return true
+					}
+					// applyOptions(defaultConfig(), opts): the helper hands back one of its parameters
+					if i := returnsParam(t); i >= 0 && i < len(c.Args) {
+						return freshExprIn(fi, c.Args[i], depth-1)
+					}
 				}
 			}
 		}
 		return false
 	}
+	_ = freshExpr
 	ast.Inspect(fi.Decl.Body, func(x ast.Node) bool {
 		if _, isLit := x.(*ast.FuncLit); isLit {
 			return false
 		}
 		if ret, isRet := x.(*ast.ReturnStmt); isRet {
+			if only != nil && (len(ret.Results) != 1 || ret.Results[0] != only) {
+				return true
+			}
 			any = true
 			if len(ret.Results) != 1 || !freshExpr(ret.Results[0]) {
 				ok = false
